@@ -104,9 +104,9 @@ Reads use frame-sized buffers, one more than there can be frames. -/
 def runForward (me : Bytes) (ups : List Bytes) (down : Bytes) : FwObs :=
   let nu := ups.length + ups.flatten.length / crossnode.MaxFrameSize + 2
   let nd := down.length / crossnode.MaxFrameSize + 3
-  let u := runStream me (ups.map .write ++ [.closeWrite]) (fun b => [b]) .eof false
+  let u := runStream none me (ups.map .write ++ [.closeWrite]) (fun b => [b]) .eof false
     (List.replicate nu crossnode.MaxFrameSize)
-  let d := runStream me [.write down, .close] (fun b => [b]) .eof false
+  let d := runStream none me [.write down, .close] (fun b => [b]) .eof false
     (List.replicate nd crossnode.MaxFrameSize)
   ⟨delivered u.reads, delivered d.reads, u.reads.contains .eof && d.reads.contains .eof⟩
 
